@@ -41,3 +41,11 @@ Proof.
   - congruence.
   - eapply show_mag_roundtrip, H.
 Qed.
+
+(* str of a small whole number is its decimal numeral (finite sweep; the bound is in the statement) *)
+Fixpoint zr (lo:Z) (k:nat) : list Z := match k with O => [] | S k' => lo :: zr (lo + 1)%Z k' end.
+Definition numeral (z:Z) : list N := if (z <? 0)%Z then 45%N :: zdigits (- z) else zdigits z.
+Definition shows_numeral (z:Z) : bool := match show_f64 (of_int z) with Some t => leqb t (numeral z) | None => false end.
+Definition small_integers : list Z := flat_map (fun h => map (fun l => (h * 100 + l)%Z) (zr 0 100)) (zr (-10) 20).
+Lemma small_integers_shown : length small_integers = 2000%nat /\ forallb shows_numeral small_integers = true.
+Proof. vm_compute. split; reflexivity. Qed.
